@@ -80,9 +80,9 @@ pub enum MatcherKind {
 }
 
 /// Accept sets (bit x = argument x) of the `matching!` patterns of `MatcherKind::Macro(k)`:
-/// 0: `(0) | (3)`   1: `(1) | (2) | (6)`   2: `2..=5`   3: `(x) if *x % 2 == 1`   4: `_`
+/// 0: `(0) | (3)`   1: `(1) | (2) | (6)`   2: `2..=5`   3: `(x) if *x % 2 == 1`   4: `(eq!(&3)) if ALWAYS || NEVER` (a guard whose outermost operator is `||` next to eq!)
 /// 5: `eq!(&4)`   6: eight alternatives `(0) | .. | (7)`   7: `(0 | 1) | (3..=5)`
-pub const MACRO_MASKS: [u8; 8] = [0b0000_1001, 0b0100_0110, 0b0011_1100, 0b1010_1010, 0xff, 0b0001_0000, 0xff, 0b0011_1011];
+pub const MACRO_MASKS: [u8; 8] = [0b0000_1001, 0b0100_0110, 0b0011_1100, 0b1010_1010, 0b0000_1000, 0b0001_0000, 0xff, 0b0011_1011];
 
 #[derive(Clone, Debug, PartialEq, Eq, Hash, Serialize, Deserialize)]
 pub struct PatternSpec {
